@@ -48,8 +48,8 @@ _STD = ('std / dependency contracts assumed by the Verus proofs (listed per grou
         'real std by the `assumptions` suite: exhaustive per char, bounded per string)')
 
 PROPS = {
-    'C01': dict(level='other', groups=['parse', 'fmt', 'builder', 'purl', 'cksum'], kani=ESC, bounded=['tokens:C01', 'spell:C01', 'format:C01'] + A,
-        explanation='Proved for all strings (Verus): from_str == parse_post (the parser as a specification function written from the statement), Display::fmt == canon_spec, build() canonicalises; complete on a finite domain (Kani): every byte of every escape set through the real encoder. NOT proved: the theorem about the two specification functions that parsing a canonical string gives the value back; it is checked BOUNDED on the real code: every accepted string of the token language T_N and of the spelling domain S is printed, re-parsed, compared and printed again, for String, SmallString and PackageType.'),
+    'C01': dict(level='other', groups=['parse', 'fmt', 'inverse', 'builder', 'purl', 'cksum'], kani=ESC, bounded=['tokens:C01', 'spell:C01', 'format:C01'] + A,
+        explanation='Proved for all strings (Verus): from_str == parse_post (the parser as a specification function written from the statement), Display::fmt == canon_spec, build() canonicalises; complete on a finite domain (Kani): every byte of every escape set through the real encoder. ALSO proved (group inverse, 100 lemmas): the inverse direction at the specification level -- for a valid type and normalised parts (what build() and the decoders guarantee), phase_a(canon_spec(ty, p)) and phase_b return exactly ty and the parts (lemma_parse_canon), from a per-character definition of percent-encoding and the assumed dec(enc(s)) = s. NOT proved: the checksum text is a fixpoint of parse + serialise, String::from_str is the identity, PackageType lookup of its own name; the end-to-end statement is therefore also checked BOUNDED on the real code: every accepted string of the token language T_N and of the spelling domain S is printed, re-parsed, compared and printed again, for String, SmallString and PackageType.'),
     'C02': dict(level='other', groups=['parse', 'parse_seg', 'lib_shape', 'qual', 'cksum'], kani=['type_char', 'key_char'], bounded=['spell:C02', 'tokens:C02'] + A,
         explanation="Proved for all strings (Verus): from_str == parse_post -- designated separators taken right to left (last '#', last '?', first '/', last '@', last '/'), each component routed to its decoder; decode_subpath / decode_namespace / decode_qualifiers equal their fold specifications; type and key legality and lower-casing; checksum text. BOUNDED: that every permitted spelling of a tuple is mapped to the tuple by these specification functions -- exhaustive tuples x spelling freedoms (S) and every T_N string against an independent reference parser, on the real code."),
     'C03': dict(level='other', groups=['fmt', 'qual', 'purl', 'pkgtype'], kani=ESC, bounded=['format:C03', 'tokens:C03', 'spell:C03', 'qualmap', 'preds', 'shapes'] + A,
@@ -65,8 +65,8 @@ PROPS = {
         explanation="Proved (Verus): decode_subpath / decode_namespace equal sub_fold / ns_fold of the pieces between raw '/'; lemma_c07_subpath / lemma_c07_namespace: splitting the reported text at '/' gives back exactly the decoded non-skipped pieces, none empty, none containing '/', none '.' or '..' (subpath); parse_post routes the text after the last '#' / before the last '/' to them. Assumed: a non-empty piece decodes to a non-empty string (A). BOUNDED cross-check: all spellings from 12 pieces up to 4 / 6 pieces, T_N."),
     'C08': dict(level='other', groups=['lib_lower', 'pkgtype', 'builder', 'parse'], kani=['package_type_names'], bounded=['pkgrules', 'lower', 'tokens:C08'] + A,
         explanation='Proved for all strings and all seven variants (Verus): nuget name = Unicode lower-casing (lower_seq), pypi name = pypi_norm written from the statement, maven refused iff the namespace has no significant segment, every other field untouched (frame), parser and builder both end in build() which applies the hook once. Unicode tables validated exhaustively (A). BOUNDED: unknown-type refusal (phf / unicase lookup), cross-checks on every scalar value.'),
-    'C09': dict(level='other', groups=['builder', 'qual', 'pkgtype', 'purl', 'fmt'], kani=ESC, bounded=['builder', 'format:C09', 'preds', 'shapes'] + A,
-        explanation='Proved (Verus): every setter sets its field and leaves every other field unchanged (frames => override and commutation), with_qualifier accepts exactly valid keys with the whole-content postcondition of insert, build() succeeds / fails as stated (build_post), Display == canon_spec. BOUNDED: that the string form re-parses to the same fields -- all call sequences of length <= 2 / 3 over a value universe, and every scalar value in every field.'),
+    'C09': dict(level='other', groups=['builder', 'qual', 'pkgtype', 'purl', 'fmt', 'inverse'], kani=ESC, bounded=['builder', 'format:C09', 'preds', 'shapes'] + A,
+        explanation='Proved (Verus): every setter sets its field and leaves every other field unchanged (frames => override and commutation), with_qualifier accepts exactly valid keys with the whole-content postcondition of insert, build() succeeds / fails as stated (build_post), Display == canon_spec. ALSO proved (group inverse): parsing canon_spec of normalised parts returns those parts (lemma_parse_canon). BOUNDED: the same for parts that are not normalised (insignificant namespace / subpath segments set through the builder) and end to end on the compiled code -- all call sequences of length <= 2 / 3 over a value universe, and every scalar value in every field.'),
     'C10': dict(level='other', groups=['builder', 'purl', 'lib_lower', 'pkgtype', 'cksum'], kani=[], bounded=['tokens:C10', 'spell:C10', 'builder'] + A,
         explanation='Proved (Verus): into_builder moves type and parts unchanged, build() = hook + generic clean-up (build_post), name rules are the specification functions lower_seq / pypi_norm, checksum text = canon_text. BOUNDED: idempotence of the whole pipeline on produced values -- every accepted T_N / S string and every built value is re-built and compared.'),
     'C11': dict(level='other', groups=['qual'], kani=['key_char'], bounded=['qualmap', 'preds'] + A,
@@ -92,12 +92,12 @@ PROPS = {
         explanation='Proved (Verus, all strings, all seven types): builder_with_combined_name splits at last_index_of / first_index_of, combined_name joins; lemma_c18_roundtrip derives the '
                     'round trip from proved split/join lemmas. A bounded cross-check on the compiled code accompanies the proof.',
         trusted=['std rsplit_once / split_once contracts (A: bounded replay)']),
-    'C19': dict(level='other', groups=['qual'], kani=[], bounded=['eq', 'tokens:C19', 'preds'] + A,
-        explanation='Proved (Verus): QualifierKey comparisons are total and coincide with structural equality on stored keys. Derived Eq/Hash/Ord are assumed consistent (compiler). '
-                    'Injectivity of the string form is BOUNDED: all pairs of a near-collision corpus, String and PackageType.'),
+    'C19': dict(level='other', groups=['qual', 'inverse', 'fmt'], kani=[], bounded=['eq', 'tokens:C19', 'preds'] + A,
+        explanation='Proved (Verus): QualifierKey comparisons are total and coincide with structural equality on stored keys; lemma_canon_injective: two normalised values with the same canonical string have the same type text and the same field texts (from the inverse theorem, group inverse). Derived Eq/Hash/Ord are assumed consistent (compiler). '
+                    'BOUNDED: values that are not normalised (builder-made namespaces with empty segments etc.) and the end-to-end statement on the compiled code: all pairs of a near-collision corpus, parsed and built, String and PackageType.'),
 }
 
-ALL_GROUPS = ['lib_lower', 'lib_shape', 'pkgtype', 'qual', 'builder', 'purl', 'parse_seg', 'cksum', 'fmt', 'parse']
+ALL_GROUPS = ['lib_lower', 'lib_shape', 'pkgtype', 'qual', 'builder', 'purl', 'parse_seg', 'cksum', 'fmt', 'parse', 'inverse']
 
 
 def _auto_groups():
